@@ -146,13 +146,6 @@ func c18HTMLEscape(o *Out, src []byte) {
 	d2.UseNumber()
 	e2 := d2.Decode(&c)
 	if e1 != nil || e2 != nil || !reflect.DeepEqual(a, c) {
-		// frozen class of a recorded finding
-		if bytes.Contains(src, []byte("e")) || bytes.Contains(src, []byte("E")) {
-			if e2 != nil || len(out) == 0 {
-				o.known("HTMLEscapeNumberRange", fmt.Sprintf("%q", src))
-				return
-			}
-		}
 		o.violation("C18", "HTMLEscape output is not equivalent to its input", map[string]string{"src": fmt.Sprintf("%q", src), "out": fmt.Sprintf("%q", out)})
 	}
 }
@@ -163,6 +156,7 @@ func runC18(o *Out) {
 		c18Text(o, []byte(d), true, true)
 		c18HTMLEscape(o, []byte(d))
 	}
+	byteSweep(func(b []byte) { c18Text(o, b, true, false) })
 	// exhaustive small strings over the property's alphabet
 	maxLen, modelLen := 4, 3
 	if thorough {
